@@ -8,6 +8,7 @@ let split c s = String.split_on_char c s
 let big_usize_max : n = let rec ones k = if k = 1 then XH else XI (ones (k - 1)) in Npos (ones 64)
 
 type hstate = {
+  mutable tables : ((n * item) list * n * n) list;   (* per document: bindings, next, root (initial state) *)
   mutable world : world;
   mutable hs : (int * n) array;      (* handle -> (doc, id) *)
   mutable nh : int;
@@ -111,7 +112,7 @@ let dump st =
          Printf.sprintf "%s:%s:%s:%s" (hopt st d (Some v)) (hid st d (parent_node s x))
            (hopt st d (previous_sibling s true x)) (hopt st d (next_sibling s true x))) m in
        Buffer.add_string b ("/m=" ^ (if items = [] then "-" else String.concat ";" items))
-     | KAt -> Buffer.add_string b (Printf.sprintf "/sp=%d" (if specified s i then 1 else 0))
+     | KAt -> Buffer.add_string b (Printf.sprintf "/ow=%s" (hid st d (owner_element s i)))
      | _ -> ())
   done;
   for d = 0 to st.ndocs - 1 do
@@ -186,9 +187,17 @@ let build (desc : string) : hstate =
     let s0 = { items = (fun j -> Hashtbl.find_opt t (int_of_n j)); next = n_of_int (total + 1);
                sdecl = (try Hashtbl.find decls d with Not_found -> []); sroot = roots.(d); order = []; dirty = true } in
     s0) in
-  let st = { world = docs; hs = hs; nh = total; index = Hashtbl.create 64; ndocs = nd } in
+  let tables = List.init nd (fun d ->
+    (List.sort compare (Hashtbl.fold (fun k v acc -> (k, v) :: acc) tbls.(d) [])
+     |> List.map (fun (k, v) -> (n_of_int k, v)), n_of_int (total + 1), roots.(d))) in
+  let st = { tables = tables; world = docs; hs = hs; nh = total; index = Hashtbl.create 64; ndocs = nd } in
   for h = 0 to total - 1 do let (d, i) = hs.(h) in Hashtbl.replace st.index (d, int_of_n i) h done;
   st
+
+(* the hypothesis of the history theorems (C12 tree_inv_reachable, C14 order_inv_reachable),
+   decided by the extracted checker on every initial store: one bit per document *)
+let check_init st =
+  String.concat "" (List.map (fun (l, nx, root) -> if tree_inv_b l nx root then "1" else "0") st.tables)
 
 let exc_name = function
   | IndexSizeErr -> "err:IndexSizeErr" | HierarchyRequestErr -> "err:HierarchyRequestErr"
@@ -198,7 +207,8 @@ let exc_name = function
 
 let () = register "dom" (fun words ->
   match words with
-  | _view :: _nd :: desc :: ops when String.length desc > 0 && desc.[0] = '@' ->
+  | view :: _nd :: desc :: ops when String.length desc > 0 && desc.[0] = '@' ->
+    let from = (match split '!' view with [_; k] -> (try int_of_string k with _ -> 0) | _ -> 0) in
     let desc = String.sub desc 1 (String.length desc - 1) in
     let st = build desc in
     let digests = Hashtbl.create 16 in
@@ -207,7 +217,7 @@ let () = register "dom" (fun words ->
       | [k; d] -> Hashtbl.replace digests (int_of_string (String.sub k 1 (String.length k - 1))) (Array.of_list (split '+' d))
       | _ -> ()) (split ';' desc);
     let out = Buffer.create 65536 in
-    Buffer.add_string out ("init # " ^ dump st);
+    Buffer.add_string out ("init ti=" ^ check_init st ^ " # " ^ (if from = 0 then dump st else "-"));
     List.iteri (fun i opw ->
       let f = Array.of_list (split ':' opw) in
       let h k = if k < Array.length f then (match int_of_string_opt f.(k) with
@@ -266,6 +276,6 @@ let () = register "dom" (fun words ->
            | Panicked -> "panic"
            | NotApplicable -> "na") in
       scan st;
-      Buffer.add_string out (" | " ^ res ^ " # " ^ dump st)) ops;
+      Buffer.add_string out (" | " ^ res ^ " # " ^ (if i + 1 < from then "-" else dump st))) ops;
     Buffer.contents out
   | _ -> "skip")
